@@ -15,6 +15,7 @@ import Driver.SemN
 import Driver.SemA
 import Driver.SemB
 import Driver.SemC
+import Driver.SemCF
 import Driver.SemK
 import Driver.SemP
 import Driver.Ex
@@ -189,6 +190,7 @@ def handle (line : String) : String :=
   | "sema" :: _ => DSemA.handle (restOf line)
   | "semb" :: _ => DSemB.handle (restOf line)
   | "semc" :: _ => DSemC.handle (restOf line)
+  | "semcf" :: _ => DSemCF.handle (restOf line)
   | "semk" :: _ => DSemK.handle (restOf line)
   | "semp" :: _ => DSemP.handle (restOf line)
   | "ex" :: _ => DEx.handle line
